@@ -51,11 +51,11 @@ def record(ctx, check):
     return d
 
 
-def prefix(lines, skip):
+def prefix(lines, skip, maxlines=MAXLINES):
     """whole scenarios from the start, up to MAXLINES lines, leaving out the scenarios that hold known findings"""
     out, cur, keep = [], [], True
     def flush():
-        if cur and keep and len(out) + len(cur) <= MAXLINES:
+        if cur and keep and len(out) + len(cur) <= maxlines:
             out.extend(cur)
     for ln in lines:
         if '"op":"reset"' in ln:
@@ -183,7 +183,7 @@ def run(ctx):
                     raise vf.Inconclusive('no priority-scheduler trace found in %s' % sd)
                 specdir, cfg, tpath = pairs[0]
                 lines = open(tpath).read().splitlines()
-            base = prefix(lines, skip)
+            base = prefix(lines, skip, 3000 if check == 'C08' else MAXLINES)
             work = os.path.join(ctx.scratch, 'st-' + check)
             os.makedirs(work, exist_ok=True)
             b = run_tlc(specdir, work, module, cfg, dest, base, 0)
@@ -234,7 +234,7 @@ def run(ctx):
     os.makedirs(os.path.join(vf.VERIF, 'evidence'), exist_ok=True)
     json.dump(out, open(os.path.join(vf.VERIF, 'evidence', 'selftest.json'), 'w'), indent=1, default=str)
     if weak:
-        print('SELFTEST-WEAK: trace specifications rejecting fewer than 70% of the corrupted observations: %s' % weak)
+        print('SELFTEST-WEAK: trace specifications rejecting fewer than 70 percent of the corrupted observations: %s' % (weak,))
         return 1
     print('OK selftest')
     return 0
